@@ -253,14 +253,24 @@ def main(argv=None):
     m["violations"].extend(crashes)
     listed = known_findings()
     violations, known = [], {}
+    accounted = set()
     for v in m["violations"]:
         what, e = classify(prop_id, v, listed)
+        accounted.add(v["kind"])
         if what == "known":
             known.setdefault(e["key"], [e, 0, v])
             known[e["key"]][1] += 1
         else:
             violations.append(v)
     inconclusive = list(failures)
+    # the verdict and the histogram come from the same run: a violation
+    # outcome that no kept record accounts for means records were lost
+    lost = sorted(k[len("violation:"):] for k in m["outcomes"]
+                  if k.startswith("violation:") and
+                  k[len("violation:"):] not in accounted)
+    if lost:
+        inconclusive.append("outcomes show violations of kind(s) %s that no "
+                            "record accounts for" % ", ".join(lost))
     for e in m["errors"][:5]:
         inconclusive.append("harness error in %s[%s]:\n%s" %
                             (e["cls"], e["idx"], e["tb"]))
